@@ -20,7 +20,8 @@ THEOREMS = ["C13_quiescent_after_stop", "C13_stopping_inert", "C13_stop_never_fa
             "C13_stop_step_fuel_enough", "C13_stopping_fuel_enough", "C13_commit_side_fuel_enough", "C13_message_loop_fuel_enough",
             "C13_step_fuel_enough", "C13_fuel_enough", "C13_reachable_invariant_all", "C13_every_stop_quiescent_all",
             "C13_shutdown_commits_all", "C13_not_started_idle_all", "C13_not_started_commit_idle",
-            "C13_not_started_commit_idle_step", "C13_not_started_commit_idle_nested", "C13_not_started_commit_idle_all"]
+            "C13_not_started_commit_idle_step", "C13_not_started_commit_idle_nested", "C13_not_started_commit_idle_all",
+            "C13_stop_never_raises", "C13_stop_preserves_shutdown_bookkeeping"]
 
 
 def idle(ob):
@@ -592,7 +593,7 @@ def run(ck):
         "(C13_reachable_invariant, C13_every_stop_quiescent [application stop() events], C13_shutdown_commits, C13_not_started_idle) carry the "
         "hypothesis all_fuel_ok, which C13_fuel_enough discharges for every configuration the constructor accepts (auto_commit_every_n >= 0): "
         "the _all forms (Props/C13all.v) state them as exists fuel0, forall fuel >= fuel0",
-        "Props/C13all.v (5 of the 35 theorems: C13_reachable_invariant_all, C13_every_stop_quiescent_all, C13_shutdown_commits_all, "
+        "Props/C13all.v (5 of the 37 theorems: C13_reachable_invariant_all, C13_every_stop_quiescent_all, C13_shutdown_commits_all, "
         "C13_not_started_idle_all, C13_not_started_commit_idle_all - one-line corollaries of C13_fuel_enough and the theorem of the same name without _all, both in Props/C13.v) "
         "is re-checked by ck.props only on the thorough tier; on the quick tier it is built by make and its 5 obligations are NOT re-checked",
         "NOT proved: that every reachable state has consistent shutdown bookkeeping (invs item 5, evaluated model-side on every case; "
